@@ -7,11 +7,13 @@ spec/VfsImpl.tla  I level, transcribed from src/api/vfs + pseudo_fs.rs + server 
 spec/Trace_Vfs.tla  judge of the logs of harness/src/bin/vfs.rs (real Server<Arc<Vfs>>, ScriptedFs)
 
 Flow of every check:
-  1. for each defect the I model can have (DEFECTS): TLC with Bugs = {d}, Known = {} finds the
-     counterexample; it is replayed on the real code (the harness makes the 256-entry table behave
-     like the model's 4-entry one by a prologue of filler mounts) and the trace spec decides whether
-     the code has it (-> KNOWN-FINDING / VIOLATION) or not (the patch is in: the model is told so);
-  2. TLC checks I => A exhaustively with Bugs = Known = what step 1 found;
+  1. the I model transcribes the code as it is: CODE_BUGS = the two restore findings (S6a, S6b, RM are
+     fixed in /repo). C19: for each of them TLC with Bugs = {d}, Known = {} finds the counterexample;
+     it is replayed on the real code (the harness makes the 256-entry table behave like the model's
+     4-entry one by a prologue of filler mounts) and the trace spec flags it (-> KNOWN-FINDING).
+     Anti-vacuity: TLC with one fixed defect switched back on must find a counterexample again
+     (exit 2 otherwise); these runs are not counted as evidence;
+  2. TLC checks I => A exhaustively with Bugs = Known = CODE_BUGS;
   3. behaviours sampled from I by TLC (-simulate) and histories of the seeded generator are executed
      on the real code and validated by the trace spec (C19: each history once unsaved and once with a
      save -> fresh Vfs -> restore -> re-attach after every prefix);
@@ -48,7 +50,12 @@ INV = {
 OBSERVABLE = ["AOK", "Routing", "MountTable", "OneSlot", "EffRight", "CtxRight", "RootOnce", "RootPlus"]
 
 
-DORDER = ["S6a", "S6b", "S7a", "S7b", "RM"]
+DORDER = ["S6a", "S6b", "S7a", "S7b", "RM", "XU"]
+# the defect shapes the code has NOW: the two restore findings (not fixed); S6a, S6b, RM were fixed in /repo
+CODE_BUGS = ["S7a", "S7b"]
+FIXED = {"S6a": "c658da2", "S6b": "09b3f38", "RM": "5f19fd8"}
+# anti-vacuity: per check one defect switched back on in the model (XU: seeded, umount leaves the superblock)
+ANTI = {"C07": "XU", "C14": "S6a", "C19": "S6b"}
 
 
 def dset(xs):
@@ -215,8 +222,7 @@ def tlc_walks(ctx, name, n, depth, bugs, persist, maps="MC_Maps", gmaps="MC_GMap
 
 
 def bindir(ctx):
-    d = os.environ.get("VERIF_VFS_BINDIR")          # development / mutation runs: a harness built elsewhere
-    return d if d else C.build_harness(bins=["vfs"])
+    return C.build_harness(bins=["vfs"])
 
 
 def gen_random(ctx, bd, abi, nsc, nmounts, shape, tag):
@@ -296,51 +302,72 @@ def note_drift(ctx, drifts, rows, tag):
 # ------------------------------------------------------------------------------------------------
 # step 1: which defects does the code have
 
+def uncount(ctx, r):
+    """TLC runs on a model that is deliberately not the code (litmus / anti-vacuity) are not evidence"""
+    ctx.states -= r["distinct"]
+    ctx.transitions -= r["generated"]
+    ctx.mc_runs = [x for x in ctx.mc_runs if x.get("cfg") != r["cfg"]]
+
+
 def detect(ctx, bd, abi, pid, persist):
-    """For each modelled defect of this property: TLC counterexample with only that defect in the model,
-    replayed on the real code, judged by the trace spec."""
-    mine = [d for d, (p, _) in DEFECTS.items() if p == pid or (pid == "C19")]
+    """(a) C19: for each defect the code still has (CODE_BUGS) TLC finds the counterexample with only that defect
+    in the model; it is replayed on the real code and judged by the trace spec (a defect that does not reproduce
+    is model drift and is taken out of the model for this run).
+    (b) anti-vacuity: TLC with the code's shapes plus one fixed defect switched back on must find a counterexample
+    again (exit 2 otherwise); for C14 that behaviour is replayed too: the code must no longer show it.
+    None of these TLC runs counts as evidence."""
+    mine = list(CODE_BUGS) if pid == "C19" else []
+    anti = ANTI[pid]
     results = {}
 
-    def one(d):
+    def one(key, bugs, known, pers):
         try:
-            mod, cfg = write_cfg(ctx, "lit_" + d, [d], [], OBSERVABLE, persist or DEFECTS[d][0] == "C19", True, 5, emul=True, alias=True)
-            r = C.tlc_mc(ctx, mod, cfg=cfg, workers=2, coverage=False, must_cover=False, expect_violation=True, timeout=600)
-            results[d] = r
+            mod, cfg = write_cfg(ctx, "lit_" + key, bugs, known, OBSERVABLE, pers, True, 5, emul=True, alias=True)
+            results[key] = C.tlc_mc(ctx, mod, cfg=cfg, workers=2, coverage=False, must_cover=False, expect_violation=True, timeout=600)
         except Exception as e:      # noqa
-            results[d] = e
-    ths = [threading.Thread(target=one, args=(d,)) for d in mine]
+            results[key] = e
+    ths = [threading.Thread(target=one, args=(d, [d], [], True)) for d in mine]
+    ths.append(threading.Thread(target=one, args=("anti", CODE_BUGS + [anti], CODE_BUGS, persist)))
     for t in ths:
         t.start()
     for t in ths:
         t.join()
-    present, info = [], []
-    scs = []
-    for d in mine:
-        r = results[d]
+    for r in results.values():
         if isinstance(r, Exception):
             raise r
+        uncount(ctx, r)
+    # (b)
+    ra = results["anti"]
+    if not ra["violated"]:
+        raise C.ToolError("anti-vacuity: the model with the fixed defect %s switched back on satisfies every invariant" % anti)
+    sca = counterexample(ra["output"])
+    ctx.extra["anti_vacuity"] = {"defect_switched_on": anti, "fixed_by": FIXED.get(anti, "(seeded in the model only)"),
+                                 "invariants_violated": ra["violated"], "states_not_counted": ra["distinct"],
+                                 "steps": [x.get("op") + ":" + str(x.get("path", "")) for x in (sca or {}).get("steps", [])]}
+    present, info, scs = [], [], []
+    if pid == "C14" and sca is not None:
+        scs.append(concretise(sca, "fixed-" + anti, "tlc-counterexample-of-fixed-defect:" + ",".join(ra["violated"]), ctx.seed, autoprobe=1, nopred=True))
+    # (a)
+    for d in mine:
+        r = results[d]
         if not r["violated"]:
             raise C.ToolError("the model with defect %s satisfies A: the litmus run found no counterexample" % d)
         sc = counterexample(r["output"])
         if sc is None:
             raise C.ToolError("could not read the counterexample for %s" % d)
         s = concretise(sc, "litmus-" + d, "tlc-counterexample:" + ",".join(r["violated"]), ctx.seed, autoprobe=1, nopred=True)
-        if DEFECTS[d][0] == "C19":
-            # the model's own saverestore step stays where TLC put it; control: the same with "nop" in its place
-            steps = s["steps"]
-            pos = [i for i, x in enumerate(steps) if x.get("op") == "saverestore"]
-            ctl = dict(s, kind="control", pair=1000 + len(scs), id=s["id"] + "/ctl",
-                       steps=[({"op": "nop", "obs": x.get("obs", []), "nopred": True} if x.get("op") == "saverestore" else x) for x in steps])
-            per = dict(s, kind="persist", pair=ctl["pair"], id=s["id"] + "/persist", cut=pos[0] if pos else -1)
-            scs += [ctl, per]
-        else:
-            scs.append(s)
+        # the model's own saverestore step stays where TLC put it; control: the same with "nop" in its place
+        steps = s["steps"]
+        pos = [i for i, x in enumerate(steps) if x.get("op") == "saverestore"]
+        ctl = dict(s, kind="control", pair=1000 + len(scs), id=s["id"] + "/ctl",
+                   steps=[({"op": "nop", "obs": x.get("obs", []), "nopred": True} if x.get("op") == "saverestore" else x) for x in steps])
+        per = dict(s, kind="persist", pair=ctl["pair"], id=s["id"] + "/persist", cut=pos[0] if pos else -1)
+        scs += [ctl, per]
         info.append({"defect": d, "invariant": r["violated"], "steps": [x.get("op") + ":" + str(x.get("path", "")) for x in sc["steps"]],
-                     "states": r["distinct"]})
+                     "states_not_counted": r["distinct"]})
+    ctx.extra["defect_litmus"] = info
     if not scs:
-        ctx.extra["defect_litmus"] = []
-        return [], []
+        return list(CODE_BUGS), []
     rows, viols, drifts, trf = execute(ctx, bd, abi, scs, "litmus")
     for d, inf in zip(mine, info):
         rx = DEFECTS[d][1]
@@ -350,10 +377,17 @@ def detect(ctx, bd, abi, pid, persist):
         inf["signatures"] = hit[:6]
         if hit:
             present.append(d)
-    # everything the trace spec found in the litmus replays is reported like any other violation
+        else:
+            ctx.drift.append({"what": "defect %s of VfsImpl does not reproduce on the code" % d})
+            C.log("MODEL-DRIFT: the code no longer shows defect %s that VfsImpl transcribes (CODE_BUGS in checks/vfs.py)" % d)
+    if pid == "C14":
+        hit = sorted({s for s, i, _ in viols if (seg_of(rows, i)[0] or "") == "fixed-" + anti and re.fullmatch(DEFECTS[anti][1], s)})
+        ctx.extra["anti_vacuity"]["reproduced_on_code"] = bool(hit)
+    # everything the trace spec found in these replays is reported like any other violation
     report(ctx, pid, rows, viols, scs, "tlc-counterexample")
     note_drift(ctx, [x for x in drifts], rows, "litmus")
-    ctx.extra["defect_litmus"] = info
+    if pid != "C19":
+        return list(CODE_BUGS), rows
     C.log("%s: defects of the model reproduced on the code: %s" % (pid, present or "none"))
     return present, rows
 
@@ -523,7 +557,7 @@ def run_c07(ctx):
         return replay(ctx, "C07")
     bd, abi, present, r, extra_sc, _ = common_run(ctx, "C07", False)
     try:
-        scs, rnd = plain_sources(ctx, bd, abi, present, "c07", idpred=False)   # the id predictions depend on the C14 defects
+        scs, rnd = plain_sources(ctx, bd, abi, present, "c07")
         allsc = extra_sc + scs + rnd
         rows, viols, drifts, trf = execute(ctx, bd, abi, allsc, "c07")
         report(ctx, "C07", rows, viols, allsc, "replay")
